@@ -1,6 +1,7 @@
 package idp
 
 import (
+	"strings"
 	"bytes"
 	"compress/flate"
 	"encoding/base64"
@@ -93,6 +94,13 @@ func (b builder) status(parent *etree.Element, status string) {
 			v = StatusSuccess
 		}
 		st := b.mk(parent, NSP, "Status")
+		// "outer>inner": a second-level status code nested in the top-level one
+		if i := strings.Index(v, ">"); i >= 0 {
+			outer := b.mk(st, NSP, "StatusCode")
+			outer.CreateAttr("Value", v[:i])
+			b.mk(outer, NSP, "StatusCode").CreateAttr("Value", v[i+1:])
+			return
+		}
 		b.mk(st, NSP, "StatusCode").CreateAttr("Value", v)
 	}
 }
